@@ -107,6 +107,8 @@ class MgrSelect:
 
     def select(self, r, w, x, timeout=None):
         socks = list(r) + list(w)
+        if not socks:
+            return [], [], []       # select() on nothing: a plain timeout
         net = socks[0].net
         return vio.ManagerSelect(net).select(r, w, x, timeout)
 
